@@ -28,8 +28,10 @@ fn source_profile() -> Profile {
     p.w_import = 6;
     p.w_remove = 10;
     p.w_register = 5;
-    p.w_ttl = [5, 3, 1, 2, 4];
-    p.time_ns = &[1_000_000_000_000];
+    // (time:N frames of several magnitudes, all far from expiring within a case: they are exported alive and must
+    // arrive alive)
+    p.time_ns = &[5_000, 120_000, 3_600_000, 1_000_000_000_000];
+    p.w_ttl = [5, 3, 1, 4, 4];
     p.head_ks = &[2, 3, u32::MAX];
     p.topics = vec!["a".into(), "ab".into(), "".into(), "a.b".into(), "é".into(), "xs.contextual".into()];
     p.len = (25, 50);
